@@ -36,6 +36,16 @@ CHECKS = {
             'Not generated: arithmetic steps, lambdas, non-finite floats, S-rooted wildcards (DESIGN.md F20); Path(p, q) with '
             'an S-rooted Path p is exercised as Path(p.path_t, q). Bounds: <= 6 steps, literals nested <= 2.',
             'DESIGN.md section 4 / C18'),
+    'C09': ('Hypothesis-generated pattern recipes with targets derived from the pattern, one-edit mutations and unrelated '
+            'values, compared with an independent reference matcher (accept/reject both ways, result, error class, '
+            'matches()/verify(), default, target snapshot)',
+            'Generated-input differential testing against a reference matcher that implements only the documented rules; '
+            'checks soundness and completeness (false accepts and false rejects), the returned value incl. Optional '
+            'defaults and container types, the rejection class, and non-mutation. Distribution floors keep accepted, '
+            'rejected and near-miss cases each above 20-25%.',
+            'Trusted: refmatch() in vf/props/c09.py. Not generated: plain callables as dict keys, two Optional keys for one '
+            'key. TypeError-ness asserted only when a type rule fails with no alternative/Or/Not above it. Bounds: depth <= 3.',
+            'DESIGN.md section 4 / C09'),
 }
 
 NOT_YET = 'check not built yet in this session (design in DESIGN.md section 4); will be claimed once its check is quiet on the unchanged tree'
